@@ -19,11 +19,13 @@ def _bad_keys(prop, root):
     import props
     project = Project(root)
     ctx = Ctx(project, "quick")
-    from sa import AnalysisError
+    from sa import AnalysisError, ShapeNotRecognised
     errs = []
     for rule in props.PROPS[prop]["rules"]:
         try:
             rule(ctx)
+        except ShapeNotRecognised as e:
+            ctx.undecided(getattr(rule, "__name__", "rule"), "%s#shape" % getattr(rule, "__name__", "rule"), None, 0, str(e))
         except AnalysisError as e:
             errs.append(str(e))
     if errs and not any(not i.ok for i in ctx.instances):
